@@ -44,6 +44,8 @@ ASSUMPTIONS = [
     "atomicity of single set/dict/list operations under the GIL and of threading.Lock",
     "OS preemption inside C code, timeouts, sleep and GC-driven __del__ / dead WeakMethod are not modelled",
     "one thread per endpoint; a socket key is operated by its owner thread only",
+    "message payloads are abstract identities in the model; the harness maps id 0 to the empty string (falsy payload), "
+    "other ids to 'm<id>' / StructuredMessage(payload=id)",
     "callback theorems: the callback key is never connected without callbacks and never disconnected (CbOnlyProg)",
     "is_connected (two reads of _open_sockets in one source line) is one atomic step",
 ]
